@@ -123,7 +123,7 @@ pub fn owners(clause: &str) -> &'static [&'static str] {
         "store-must-succeed" => &["C01", "C02"],
         "cas-should-succeed" | "cas-should-fail" | "cas-fail-status" | "cas-fail-modified" | "token-zero"
         | "token-reused" | "token-ack" => &["C02"],
-        "must-miss-ttl" | "resurrected" | "expired-visible" | "expiry-prolonged" | "expiry-shortened" | "rejected-changed-expiry" => &["C05"],
+        "must-miss-ttl" | "resurrected" | "expired-visible" | "expiry-prolonged" | "expiry-shortened" | "rejected-changed-expiry" | "stored-expiry" => &["C05"],
         "add-on-present" | "add-on-absent" | "replace-on-absent" | "replace-on-present" | "concat-on-absent"
         | "concat-value" | "concat-flags" | "concat-must-succeed" | "rejected-modified" | "nothing-stored"
         | "conditional-store-effect" => &["C06"],
